@@ -6,6 +6,7 @@ import GraphrsModel.ObsComp
 import GraphrsModel.ObsClu
 import GraphrsModel.ObsComm
 import GraphrsModel.ObsGen
+import GraphrsModel.ObsXml
 open Graphrs
 
 /-- `store <specs> <universe> <w> <ops>`: the concrete model's and the specification's
@@ -46,6 +47,7 @@ def handle (line : String) : String :=
       | "karate" => run handleKarate
       | "gnp" => run handleGnp
       | "gnpstat" => "m.none=0"
+      | "xml" => run handleXml
       | _ => "bad-request command"
 
 partial def loop (h : IO.FS.Stream) (out : IO.FS.Stream) : IO Unit := do
